@@ -351,6 +351,17 @@ func (fork ForkId) expandStaticForkPart(i int, part *ForkSourcePart,
 	index map[*syntax.CallStm]syntax.CollectionIndex,
 	result []ForkId,
 	lookup *syntax.TypeLookup) []ForkId {
+	for _, outer := range fork[:i] {
+		if _, ok := outer.Id.(emptyFork); ok {
+			// Nothing exists below an empty dimension: the collection
+			// which this part would split is not even defined.
+			p := *part
+			p.Id = emptyFork{}
+			p.Range = arrayLengthRange(0)
+			fork[i] = &p
+			return nil
+		}
+	}
 	forkSrc := fork.getForkSrc(split, index, lookup)
 	if forkSrc == nil || !forkSrc.KnownLength() {
 		return nil
